@@ -3,6 +3,7 @@ package main
 import (
 	"fmt"
 	"os"
+	"os/exec"
 	"path/filepath"
 	"strings"
 )
@@ -16,7 +17,8 @@ type Mutant struct {
 	Expect   []string // rule names, any of which must report a violation; empty for a benign edit
 	Edits    []Edit
 	Note     string
-	Benign   bool // behaviour-preserving edit: no rule of the property may report anything
+	Benign   bool   // behaviour-preserving edit: no rule of the property may report anything
+	Patch    string // a unified diff (kept seeded change or refactoring) instead of text edits
 }
 
 // Edit replaces the single occurrence of Old in File by New.
@@ -56,6 +58,9 @@ func findMutant(name string) *Mutant {
 }
 
 func (m *Mutant) overlay(repo string) (map[string][]byte, error) {
+	if m.Patch != "" {
+		return patchOverlay(repo, m.Patch)
+	}
 	ov := map[string][]byte{}
 	for _, e := range m.Edits {
 		p := filepath.Join(repo, e.File)
@@ -131,7 +136,7 @@ func runSelfTest(repo, known, prop string) *selfTestResult {
 			hit := ""
 			for _, v := range o.Result.Violations {
 				for _, e := range m.Expect {
-					if v.Rule == e {
+					if v.Rule == e || e == "*" {
 						hit = v.Rule + " " + v.Construct
 					}
 				}
@@ -156,4 +161,87 @@ func runSelfTest(repo, known, prop string) *selfTestResult {
 	st.Summary["survivors"] = len(st.Failures)
 	st.Summary["detail"] = detail
 	return st
+}
+
+// patchOverlay applies a unified diff to copies of the files it names (the
+// repository itself is not touched) and returns the patched contents as an
+// overlay. A patch that no longer applies makes the case inapplicable.
+func patchOverlay(repo, patchFile string) (map[string][]byte, error) {
+	b, err := os.ReadFile(patchFile)
+	if err != nil {
+		return nil, err
+	}
+	var files []string
+	for _, ln := range strings.Split(string(b), "\n") {
+		if strings.HasPrefix(ln, "+++ b/") {
+			files = append(files, strings.TrimSpace(strings.TrimPrefix(ln, "+++ b/")))
+		}
+	}
+	if len(files) == 0 {
+		return nil, fmt.Errorf("no files in %s", patchFile)
+	}
+	tmp, err := os.MkdirTemp("", "fwdcheck-patch-")
+	if err != nil {
+		return nil, err
+	}
+	defer os.RemoveAll(tmp)
+	for _, f := range files {
+		src, err := os.ReadFile(filepath.Join(repo, f))
+		if err != nil {
+			if os.IsNotExist(err) {
+				continue // a file the patch creates
+			}
+			return nil, err
+		}
+		dst := filepath.Join(tmp, f)
+		if err := os.MkdirAll(filepath.Dir(dst), 0o755); err != nil {
+			return nil, err
+		}
+		if err := os.WriteFile(dst, src, 0o644); err != nil {
+			return nil, err
+		}
+	}
+	cmd := exec.Command("patch", "-p1", "-s", "-f", "--no-backup-if-mismatch", "-d", tmp, "-i", patchFile)
+	if out, err := cmd.CombinedOutput(); err != nil {
+		return nil, fmt.Errorf("edit anchor: patch does not apply to the current tree: %s", firstLine(string(out)))
+	}
+	ov := map[string][]byte{}
+	for _, f := range files {
+		pb, err := os.ReadFile(filepath.Join(tmp, f))
+		if err != nil {
+			continue // deleted by the patch: not supported, leave the original
+		}
+		ov[filepath.Join(repo, f)] = pb
+	}
+	return ov, nil
+}
+
+// registerCorpora adds the kept seeded changes (must be reported) and the kept
+// refactorings (must stay silent) of the corpus directory to the self-test.
+func registerCorpora(base string) {
+	for _, kind := range []string{"seeded", "refactorings"} {
+		ents, err := os.ReadDir(filepath.Join(base, kind))
+		if err != nil {
+			continue
+		}
+		for _, e := range ents {
+			if !e.IsDir() || len(e.Name()) < 5 || e.Name()[0] != 'C' {
+				continue
+			}
+			prop := e.Name()[:3]
+			pf := filepath.Join(base, kind, e.Name(), "patch.diff")
+			if _, err := os.Stat(pf); err != nil {
+				continue
+			}
+			m := &Mutant{Property: prop, Patch: pf}
+			if kind == "seeded" {
+				m.Name = prop + "/seed-" + e.Name()
+				m.Expect = []string{"*"}
+			} else {
+				m.Name = prop + "/refactoring-" + e.Name()
+				m.Benign = true
+			}
+			mutants = append(mutants, m)
+		}
+	}
 }
